@@ -20,6 +20,9 @@ inductive RoundEnd where
   | ok | err | panic
   /-- the callback panics after it has processed its guards -/
   | latePanic
+  /-- async callbacks only: the future returned by the callback is pending when it is first polled (it owns the guards);
+  when it is polled again it processes the guards and completes with `Ok` / `Err` -/
+  | pendOk | pendErr
 deriving DecidableEq, Repr
 
 /-- one invocation of `on_evict`. `panic`: raised on entry, all guards are dropped by unwinding.
@@ -55,6 +58,8 @@ deriving Repr
 
 inductive Res where
   | guard | none | pending | err | userPanic | ok | bad | ended
+  /-- the lock call is suspended in its eviction loop: the callback's future is pending and owns these guards -/
+  | suspended (cands : List (Nat × Nat))
   | out (o : Out)
   | item (h k : Nat)
   | handles (l : List (Nat × Nat))
@@ -73,11 +78,25 @@ structure StreamSt where
   ready : List Nat
 deriving Repr
 
+/-- a lock call suspended at the await point of its eviction callback -/
+structure Susp where
+  v : Variant
+  k : Nat
+  n : Nat
+  /-- the script from the pending round on -/
+  script : List Round
+  /-- first handle id for the candidates of later rounds -/
+  h0 : Nat
+  cands : List (Nat × Nat)
+deriving Repr
+
 structure Api where
   s : State
   streams : List (Nat × StreamSt)
+  /-- suspended lock calls by the handle id of the requested key -/
+  susp : List (Nat × Susp)
 
-def Api.init (kind : Kind) : Api := { s := State.init kind, streams := [] }
+def Api.init (kind : Kind) : Api := { s := State.init kind, streams := [], susp := [] }
 
 /-- how many fresh handle ids a call may use, starting at its `h0` -/
 def supplyLen : Nat := 48
@@ -158,6 +177,7 @@ def Api.lockPrelude (a : Api) (h k : Nat) (limit : Limit) (h0 : Nat) : Nat → L
         match round.fin with
         | .panic =>
           (a1.dropAll cands, (⟨candKeys, none⟩ :: tr).reverse, .userPanic)
+        | .pendOk | .pendErr => (a1, tr.reverse, .suspended candKeys)
         | fin =>
           let a2 := a1.runActs cands round.acts
           let seen := if round.recount then some ((count a2.s).2, (keys a2.s).2) else none
@@ -188,7 +208,32 @@ def Api.lock (a : Api) (v : Variant) (h k : Nat) (limit : Limit) (h0 : Nat) : Ap
           ({ a1 with s := s3 }, ⟨tr, match o3 with | .unit => .none | o => .out o⟩)
         | o => ({ a1 with s := s2 }, ⟨tr, .out o⟩)
     | none => (a1, ⟨tr, .bad⟩)
+  | .suspended cands =>
+    match limit with
+    | .soft n script =>
+      let used := (tr.map fun r => r.cands.length).sum + cands.length
+      ({ a1 with susp := (h, ⟨v, k, n, script.drop tr.length, h0 + used, cands⟩) :: a1.susp }, ⟨tr, .suspended cands⟩)
+    | .none => (a1, ⟨tr, .bad⟩)
   | r => (a1, ⟨tr, r⟩)
+
+/-- the pending callback future of a suspended lock call is polled again: it processes its guards and completes;
+the eviction loop of the call goes on with the rest of the script -/
+def Api.resume (a : Api) (h : Nat) (su : Susp) : Api × Resp :=
+  let a0 := { a with susp := a.susp.filter fun (i, _) => i ≠ h }
+  let round := su.script.head?.getD defaultRound
+  let a2 := a0.runActs (su.cands.map Prod.fst) round.acts
+  let seen := if round.recount then some ((count a2.s).2, (keys a2.s).2) else none
+  let tr0 : List RoundTrace := [⟨su.cands, seen⟩]
+  match round.fin with
+  | .err | .pendErr => (a2, ⟨tr0, .err⟩)
+  | .latePanic => (a2, ⟨tr0, .userPanic⟩)
+  | _ =>
+    let r := a2.lock su.v h su.k (.soft su.n su.script.tail) su.h0
+    (r.1, ⟨tr0 ++ r.2.rounds, r.2.res⟩)
+
+/-- the future of a suspended lock call is dropped: the callback's future is dropped with it and releases its guards -/
+def Api.abandon (a : Api) (h : Nat) (su : Susp) : Api :=
+  { a with susp := a.susp.filter fun (i, _) => i ≠ h }.dropAll (su.cands.map Prod.fst)
 
 inductive ItemRes where
   /-- the item obtained its lock and the entry has a value: the stream yields the guard -/
@@ -237,19 +282,34 @@ def Api.spollLoop (a : Api) (sid : Nat) : Nat → Api × Res
         | .pending => Api.spollLoop (setSt a1 fun st => { st with items := w :: st.items.erase w }) sid fuel
         | .bad => (a1, .bad)
 
+/-- the guard is owned by the pending future of an eviction callback: the client has no access to it -/
+def Api.ownedBySusp (a : Api) (h : Nat) : Bool :=
+  a.susp.any fun (_, su) => su.cands.any fun c => c.1 == h
+
+@[simp] theorem Api.ownedBySusp_nil (s : State) (st : List (Nat × StreamSt)) (h : Nat) :
+    (Api.mk s st []).ownedBySusp h = false := rfl
+
 def Api.exec (a : Api) (c : Call) : Api × Resp :=
   match c with
   | .lock v h k limit h0 => a.lock v h k limit h0
   | .poll h =>
-    let (s1, o) := acquire a.s h
-    ({ a with s := s1 }, ⟨[], match o with | .bool true => .guard | .bool false => .pending | o => .out o⟩)
+    match a.susp.lookup h with
+    | some su => a.resume h su
+    | none =>
+      let (s1, o) := acquire a.s h
+      ({ a with s := s1 }, ⟨[], match o with | .bool true => .guard | .bool false => .pending | o => .out o⟩)
   | .cancel h =>
-    let (a1, o) := a.cancelHandle h
-    (a1, ⟨[], match o with | .unit => .ok | o => .out o⟩)
+    match a.susp.lookup h with
+    | some su => (a.abandon h su, ⟨[], .ok⟩)
+    | none =>
+      let (a1, o) := a.cancelHandle h
+      (a1, ⟨[], match o with | .unit => .ok | o => .out o⟩)
   | .op h g =>
+    if a.ownedBySusp h then (a, ⟨[], .bad⟩) else
     let (s1, o) := gop a.s h g
     ({ a with s := s1 }, ⟨[], .out o⟩)
   | .drop h =>
+    if a.ownedBySusp h then (a, ⟨[], .bad⟩) else
     let (a1, o) := a.dropGuard h
     (a1, ⟨[], match o with | .unit => .ok | o => .out o⟩)
   | .count => (a, ⟨[], .out (count a.s).2⟩)
@@ -264,7 +324,7 @@ def Api.exec (a : Api) (c : Call) : Api × Resp :=
     if (a.streams.lookup sid).isSome then (a, ⟨[], .bad⟩) else
     let (s1, o) := step a.s (.snapshot (List.range' h0 supplyLen))
     match o with
-    | .list hs => ({ s := s1, streams := (sid, ⟨hs.reverse, hs⟩) :: a.streams }, ⟨[], .handles (hs.map fun h => (h, keyOf s1 h))⟩)
+    | .list hs => ({ a with s := s1, streams := (sid, ⟨hs.reverse, hs⟩) :: a.streams }, ⟨[], .handles (hs.map fun h => (h, keyOf s1 h))⟩)
     | o => ({ a with s := s1 }, ⟨[], .out o⟩)
   | .spoll sid =>
     let n := match a.streams.lookup sid with | some st => st.ready.length + 1 | none => 1
